@@ -155,7 +155,7 @@ pub fn check_profiles(cfg: &Config, profiles: &[&str]) -> CheckResult {
     }
     let run = blocked_run_lower_bound(cfg);
     let sizes: Vec<usize> = cfg.ranges.iter().map(|r| r.combos.len()).collect();
-    let special = sizes.iter().any(|s| matches!(*s, 0 | 255 | 256 | 257) || *s >= 512);
+    let special = sizes.iter().any(|s| matches!(*s, 0 | 255 | 256 | 257) || *s >= 512) || sizes.len() >= 24;
     let mut cls = 0u64;
     if run >= 10_000 {
         cls |= 1;
@@ -175,6 +175,12 @@ pub fn check_profiles(cfg: &Config, profiles: &[&str]) -> CheckResult {
     if sizes.len() >= 3 {
         cls |= 32;
     }
+    if sizes.len() >= 24 {
+        cls |= 128;
+    }
+    if sizes.len() >= 128 {
+        cls |= 256;
+    }
     if cfg.scope.is_none() {
         cls |= 64;
     }
@@ -185,7 +191,7 @@ pub fn check(cfg: &Config) -> CheckResult {
     check_profiles(cfg, &PROFILES)
 }
 
-pub const CLASSES: &[&str] = &["blocked_run_ge_10k", "blocked_run_ge_100k", "empty_range", "range_over_255", "size_multiple_of_256", "three_plus_players", "unscoped_full_drain"];
+pub const CLASSES: &[&str] = &["blocked_run_ge_10k", "blocked_run_ge_100k", "empty_range", "range_over_255", "size_multiple_of_256", "three_plus_players", "unscoped_full_drain", "more_players_than_a_deck_seats", "player_count_ge_128"];
 
 /// a range of `size` combos that all contain `card` (max 51)
 fn holding(card: u8, size: usize, seed: u64) -> RangeSpec {
@@ -237,6 +243,15 @@ pub fn strategy(slot_budget: u128) -> impl Strategy<Value = Config> {
             }
             Config { flop, ranges, scope: None }
         }),
+        // G: very many players (far more than a deck can seat), single-combo ranges so that the
+        //    walk stays 1176 positions long; counts around the u8 / i8 boundaries
+        2 => (flop_strategy(), prop_oneof![Just(23usize), Just(24usize), Just(26usize), Just(52usize), Just(127usize), Just(128usize), Just(129usize), Just(255usize), Just(256usize), Just(257usize), Just(300usize), 7usize..130], any::<u64>(), any::<bool>(), any::<bool>()).prop_map(|(flop, n, seed, full, one_double)| {
+            let mut ranges: Vec<RangeSpec> = (0..n).map(|i| sized_range(1, seed.wrapping_add(i as u64 * 7919), false)).collect();
+            if one_double {
+                ranges[n / 2] = sized_range(2, seed ^ 0xabc, true);
+            }
+            Config { flop, ranges, scope: if full { None } else { Some((0, 1, 2, 3)) } }
+        }),
         // F: moderate pool / free configurations, full drains
         3 => pool_config(2..=4, 6..=10, 5),
         2 => free_config(1..=3, 1, 5),
@@ -266,7 +281,7 @@ pub fn strategy(slot_budget: u128) -> impl Strategy<Value = Config> {
 }
 
 pub fn run(ctx: &mut Ctx) {
-    ctx.rule = "proptest configurations as data, each drained in a child process on a 2 MiB thread, once per build profile (release: wrapping arithmetic; dbgchk: espada at opt-level 0 with overflow checks and debug assertions): narrow range holding the first deck cards beside wide ranges inside a window of the first turn rows (longest blocked runs), narrow/wide/wide, one player of sizes {0,1,2,255,256,257,511,512,513,768,1024,1326,random}, empty range at any seat, ranges consisting only of flop-card combos, moderate full drains. Violation = child panics / dies on a signal (stack overflow) / yields more showdowns than odometer slots / yields anything with an empty range. Non-trivial = order-independent lower bound of the longest blocked run >= 10,000 slots, or a size in {0,255,256,257,>=512}; distinct by configuration.".into();
+    ctx.rule = "proptest configurations as data, each drained in a child process on a 2 MiB thread, once per build profile (release: wrapping arithmetic; dbgchk: espada at opt-level 0 with overflow checks and debug assertions): narrow range holding the first deck cards beside wide ranges inside a window of the first turn rows (longest blocked runs), narrow/wide/wide, one player of sizes {0,1,2,255,256,257,511,512,513,768,1024,1326,random}, empty range at any seat, ranges consisting only of flop-card combos, 7-300 single-combo players (23/24/127/128/129/255/256/257 among them), moderate full drains. Violation = child panics / dies on a signal (stack overflow) / yields more showdowns than odometer slots / yields anything with an empty range. Non-trivial = order-independent lower bound of the longest blocked run >= 10,000 slots, or a size in {0,255,256,257,>=512}, or >= 24 players; distinct by configuration.".into();
     ctx.assumptions = vec![
         "a hang that yields nothing can only hit the watchdog (exit 2, inconclusive), never a violation".into(),
         "debug = cargo's dev settings for espada (opt-level 0, overflow checks, debug assertions); third-party crates are optimised".into(),
@@ -282,7 +297,7 @@ pub fn run(ctx: &mut Ctx) {
     let budget = ctx.tier.pick(400_000u128, 3_000_000u128);
     let cases = ctx.tier.pick(480, 6_000);
     ctx.run_random_brief(StreamCfg::new("child_drains", CLASSES, cases).shrink(120), || strategy(budget), check, |c| c.brief());
-    for (c, d) in [("blocked_run_ge_10k", 8), ("empty_range", 10), ("range_over_255", 8), ("size_multiple_of_256", 30), ("unscoped_full_drain", 6)] {
+    for (c, d) in [("blocked_run_ge_10k", 8), ("empty_range", 10), ("range_over_255", 8), ("size_multiple_of_256", 30), ("unscoped_full_drain", 6), ("more_players_than_a_deck_seats", 30), ("player_count_ge_128", 60)] {
         ctx.require_class("child_drains", c, cases / d);
     }
     let wd = WATCHDOG_HITS.load(Ordering::Relaxed);
